@@ -28,6 +28,7 @@ type Engine struct {
 	effCache   map[*ssa.Function]map[string]bool
 	effBusy    map[*ssa.Function]bool
 	fieldHeaps []string
+	heapDescs  map[string]heapDesc
 	srcCache   map[string][]string
 	funcsByKey map[string]*ssa.Function // pkgpath::key
 	loadErrs   []string
@@ -36,7 +37,7 @@ type Engine struct {
 var loadPatterns = []string{".", "./internal", "./datadictionary", "./store/file", "./store/sql"}
 
 func LoadEngine(repo, verifDir string) (*Engine, error) {
-	eng := &Engine{repo: repo, verifDir: verifDir, effCache: map[*ssa.Function]map[string]bool{}, effBusy: map[*ssa.Function]bool{}, srcCache: map[string][]string{}, tpkgs: map[string]*types.Package{}, funcsByKey: map[string]*ssa.Function{}}
+	eng := &Engine{repo: repo, verifDir: verifDir, effCache: map[*ssa.Function]map[string]bool{}, effBusy: map[*ssa.Function]bool{}, srcCache: map[string][]string{}, tpkgs: map[string]*types.Package{}, funcsByKey: map[string]*ssa.Function{}, heapDescs: map[string]heapDesc{}}
 	cfg := &packages.Config{Mode: packages.LoadAllSyntax, Dir: repo, BuildFlags: []string{"-tags=verif"},
 		Env: append(os.Environ(), "GOFLAGS=-mod=mod", "GOPROXY=off", "GOSUMDB=off", "GOTOOLCHAIN=local")}
 	pkgs, err := packages.Load(cfg, loadPatterns...)
@@ -295,21 +296,9 @@ func (eng *Engine) buildVCq(fn *ssa.Function, ct *Contract, qf int) (vc *VC, err
 				eff := eng.contractEffects(ct, fn, fn.Signature)
 				actual := eng.bodyEffects(fn)
 				if !eff["*"] {
-					// static heap-level check
-					var extra []string
-					for h := range actual {
-						if !eff[h] && h != "alloc" {
-							extra = append(extra, h)
-						}
-					}
-					sort.Strings(extra)
-					if ri == 0 {
-						cond := "true"
-						if len(extra) > 0 {
-							cond = "false"
-						}
-						o := f.obligeAt("true", "frame", "heaps", nil, cond, fn.Pos())
-						o.Src = "modifies clause covers computed write effect; extra: " + strings.Join(extra, ",")
+					if actual["*"] && ri == 0 {
+						o := f.obligeAt("true", "frame", "unknown-callee-effects", nil, "false", fn.Pos())
+						o.Src = "the body calls code with unknown effects (interface method or function value without contract) but the modifies clause does not say '*'"
 					}
 					for k, fm := range f.frameConds(ct, f.specEnv(f.entry), f.entry, r.st, union(eff, actual)) {
 						f.obligeAt(r.R, "frame", fmt.Sprintf("objects.%d%s", k+1, tag), nil, fm, r.pos)
@@ -346,6 +335,7 @@ func (eng *Engine) bodyEffects(fn *ssa.Function) map[string]bool {
 
 // smtText renders the whole query file: definitions, then one push/check/pop per obligation.
 func (vc *VC) smtText(only map[int]bool) string {
+	vc.emitLemmaAxioms()
 	var sb strings.Builder
 	for _, l := range vc.out {
 		sb.WriteString(l)
